@@ -12,7 +12,7 @@ def thorough_race(work, res):
     """thorough tier: the same harness built with the race detector (a report makes it exit non-zero,
     which the pipeline reports as a crash together with the scenario); smaller volume, -race is slow."""
     t = steps.TraceCorr(work, res, "C06", harness="linz", area="linz", tier="quick", name="linz-race", race=True,
-                        env={"VERIF_LINZ_REPS": "12", "VERIF_LINZ_EXTRA": "10", "VERIF_LINZ_CASES": "200",
+                        env={"VERIF_LINZ_REPS": "12", "VERIF_LINZ_EXTRA": "10", "VERIF_LINZ_CASES": "200", "VERIF_LINZ_BURSTS": "20",
                              "GORACE": "halt_on_error=1"})
     t.run(proofs_ok=True)
 
@@ -34,7 +34,9 @@ MANIFEST = dict(
           "Tie: the synchronisation skeletons of all 37 functions of the five files are regenerated from the source on "
           "every run and proved equal to the modelled ones; a Go harness records invocation/response histories of the "
           "real containers under 2-8 goroutines and the Lean driver decides by exhaustive search whether each history is "
-          "linearizable w.r.t. the very specification functions the theorems use (plus quiescent white-box shape facts)."),
+          "linearizable w.r.t. the very specification functions the theorems use (plus quiescent white-box shape facts); "
+          "long permit bursts on the linked queue (producers publish a permit after Enqueue returned, consumers take one "
+          "before Dequeue) hand every suspicious answer to the same search as a small projection of the burst's history."),
     note=COMMON_NOTE + (" Concurrency residue: sequential consistency of sync/atomic, unsafe.Pointer identity = node identity "
                         "(GC: no reuse while referenced), sync.RWMutex/sync.Mutex semantics and the atomicity of sync.Map's own "
                         "operations are definitions of the models (trusted). The heap inside ConcurrentPriorityQueue is a "
